@@ -53,3 +53,4 @@ open Bpmn.Props.C12 Bpmn.Props.EngineCurrent
 #print axioms Bpmn.Props.C12.current_activations_take_turns
 #print axioms Bpmn.Props.C12Turns.answer_payload_irrelevant
 #print axioms Bpmn.Props.C12Turns.turnsRun_any_payload
+#print axioms Bpmn.Props.C12Turns.handover
